@@ -1,0 +1,33 @@
+//go:build verif
+
+package rtsp
+
+import "sync/atomic"
+
+var verifSched atomic.Value // func(name string, obj interface{})
+
+// VerifSetSched installs (or, with nil, removes) the schedule-point callback
+// (build tag verif only). Points: "consumer.close.checked" — a TCP or UDP
+// player's consumer is about to be closed by this caller (it is past the
+// already-closed test); obj is the consumer's session (*Session).
+func VerifSetSched(f func(name string, obj interface{})) {
+	if f == nil {
+		f = func(string, interface{}) {}
+	}
+	verifSched.Store(f)
+}
+
+func verifPoint(name string, obj interface{}) {
+	if f, ok := verifSched.Load().(func(string, interface{})); ok {
+		f(name, obj)
+	}
+}
+
+// VerifSessionAddr returns the remote address of the session a schedule point
+// reported ("" when obj is no session).
+func VerifSessionAddr(obj interface{}) string {
+	if s, ok := obj.(*Session); ok && s != nil && s.conn != nil {
+		return s.conn.RemoteAddr().String()
+	}
+	return ""
+}
